@@ -458,6 +458,18 @@ fn check_c08(cfg: &ChainCfg, h: &crate::chain::History, out: &mut RunOutcome) {
                 }
             }
         }
+        // the log-determinant is not reported, but energy = kinetic - logp - logdet: with a finite log density
+        // at the returned state the energy is finite exactly when the log-determinant is
+        if let (Some(e), Some(lp)) = (d.f64("energy"), d.f64("logp")) {
+            if lp.is_finite() && !e.is_finite() {
+                out.violate(
+                    format!("C08/log_determinant_not_finite/{pname}"),
+                    format!("draw {n}: energy {e} with log density {lp:e}: the log-determinant of the transformation in use is not finite (scales {:?})", d.vec("mass_matrix_inv").or(d.vec("mass_matrix_stds"))),
+                );
+                return;
+            }
+            out.probe("finite_energy_checked", 1);
+        }
         // gradient of the accepted draw (needed for the constant-gradient rule)
         if std::env::var("VERIF_DEBUG").is_ok() {
             eprintln!("draw {n}: pos {:?} grad {:?} scale {:?} idx {:?} div {} counters {:?}", d.pos, d.vec("gradient"), d.vec("mass_matrix_inv"), d.i64("index_in_trajectory"), d.progress.diverging, d.counters);
